@@ -201,10 +201,29 @@ def _callee_body(prog, callee, skip_self, call, counter, self_expr):
     if not _return_simple(body):
         return None
     a = node.args
-    if a.vararg or a.kwarg or a.kwonlyargs or any(isinstance(x, ast.Starred) for x in call.args) or any(k.arg is None for k in call.keywords):
+    if a.vararg or a.kwarg or a.kwonlyargs or any(k.arg is None for k in call.keywords):
+        return None
+    star = [x for x in call.args if isinstance(x, ast.Starred)]
+    if star and not (len(star) == 1 and call.args[-1] is star[0] and isinstance(star[0].value, (ast.Name, ast.Attribute)) and dotted(star[0].value)):
         return None
     params = [x.arg for x in a.posonlyargs + a.args]
     mapping, pre = {}, []
+    if star:
+        # `f(x, *E)`: the parameters left over (none of them defaulted or given by keyword, so their number is forced) are E[0], E[1], ...
+        import copy as _cp
+
+        npos = len(call.args) - 1
+        rest = params[(1 if skip_self else 0) + npos:]
+        given_kw = {k.arg for k in call.keywords}
+        ndef = len(a.defaults)
+        defaulted = set(params[-ndef:]) if ndef else set()
+        if not rest or any(p in defaulted or p in given_kw for p in rest):
+            return None
+        tmp = "%s__star_%d" % (node.name, counter[0])
+        pre.append(_loc(ast.Assign(targets=[ast.Name(id=tmp, ctx=ast.Store())], value=star[0].value, type_comment=None), call))
+        call = _cp.copy(call)
+        call.args = list(call.args[:-1]) + [_loc(ast.Subscript(value=ast.Name(id=tmp, ctx=ast.Load()), slice=ast.Constant(value=i), ctx=ast.Load()), call)
+                                            for i in range(len(rest))]
     if skip_self and params:
         if self_expr is not None and not isinstance(self_expr, (ast.Name, ast.Attribute)):
             # a computed receiver (`Factory.make(x).method()`) is evaluated once
@@ -496,6 +515,7 @@ def expand(prog, f, depth=2, local_only=False, skip_names=()):
     root = _propagate_callable_temps(root)
     root = _FuseGen().visit(root)   # generator arguments substituted into helper comprehensions fuse with them
     root = _fold_record_constants(prog, f.module, root)
+    root = _scalarise_records(prog, f.module, root)
     ast.fix_missing_locations(root)
     return root
 
@@ -601,6 +621,72 @@ def _walk_same_function(fnode):
         for c in ast.iter_child_nodes(n):
             if not isinstance(c, (ast.FunctionDef, ast.AsyncFunctionDef, ast.Lambda, ast.ClassDef)):
                 todo.append(c)
+
+
+def _scalarise_records(prog, module, root):
+    """A local bound once to a NamedTuple construction (`t = Rec(a=E1, b=E2)`) has its fields in locals of their own:
+    `t__a_0 = E1; t__b_0 = E2; t = Rec(a=t__a_0, b=t__b_0)` and every `t.a` reads `t__a_0` (the fields of a tuple cannot be rebound,
+    so the two spellings denote the same objects).  Uses of `t` as a whole stay."""
+    from . import records as R_
+
+    stores = {}
+    for n in ast.walk(root):
+        if isinstance(n, ast.Name) and isinstance(n.ctx, (ast.Store, ast.Del)):
+            stores[n.id] = stores.get(n.id, 0) + 1
+    todo = []
+    for n in ast.walk(root):
+        if isinstance(n, ast.Assign) and len(n.targets) == 1 and isinstance(n.targets[0], ast.Name) and stores.get(n.targets[0].id) == 1 \
+                and isinstance(n.value, ast.Call):
+            rc = R_.record_class(prog, module, n.value.func)
+            if rc is None or not any((dotted(b) or "").split(".")[-1] == "NamedTuple" for b in rc.node.bases):
+                continue
+            fs = R_.fields_of(prog, module, n.value.func)
+            cs = R_.components(prog, module, n.value)
+            if fs and cs and len(fs) == len(cs):
+                todo.append((n, n.targets[0].id, fs, cs))
+    if not todo:
+        return root
+    ren = {}
+    for st, t, fs, cs in todo:
+        for f_ in fs:
+            ren[(t, f_)] = "%s__%s_0" % (t, f_)
+
+    class B(ast.NodeTransformer):
+        def _blk(self, stmts):
+            out = []
+            for s_ in stmts:
+                hit = next((x for x in todo if x[0] is s_), None)
+                if hit is not None:
+                    _st, t, fs, cs = hit
+                    for f_, c_ in zip(fs, cs):
+                        out.append(ast.copy_location(ast.Assign(targets=[ast.Name(id=ren[(t, f_)], ctx=ast.Store())], value=c_, type_comment=None), s_))
+                    s_.value = ast.copy_location(ast.Call(func=s_.value.func, args=[], keywords=[
+                        ast.keyword(arg=f_, value=ast.Name(id=ren[(t, f_)], ctx=ast.Load())) for f_ in fs]), s_.value)
+                    out.append(s_)
+                    continue
+                r = self.visit(s_)
+                out.extend(r if isinstance(r, list) else [r] if r is not None else [])
+            return out
+
+        def generic_visit(self, node):
+            for fld in ("body", "orelse", "finalbody"):
+                b = getattr(node, fld, None)
+                if isinstance(b, list) and b and isinstance(b[0], ast.stmt):
+                    setattr(node, fld, self._blk(b))
+            for h in getattr(node, "handlers", []) or []:
+                h.body = self._blk(h.body)
+            return ast.NodeTransformer.generic_visit(self, node) if isinstance(node, ast.expr) else node
+
+    root.body = B()._blk(root.body)
+
+    class A(ast.NodeTransformer):
+        def visit_Attribute(self, n):
+            self.generic_visit(n)
+            if isinstance(n.value, ast.Name) and isinstance(n.ctx, ast.Load) and (n.value.id, n.attr) in ren:
+                return ast.copy_location(ast.Name(id=ren[(n.value.id, n.attr)], ctx=ast.Load()), n)
+            return n
+
+    return A().visit(root)
 
 
 def _fold_record_constants(prog, module, root):
